@@ -324,6 +324,14 @@ func genLookupContent(r *prng) *plan {
 	p.Cfg["vv"] = int64(r.intn(3))
 	p.Cfg["big"] = int64(r.intn(3) / 2)
 	p.Ops = []opSpec{{K: "lookup", N: []int64{int64(r.u64() >> 1)}}}
+	if r.chance(25) {
+		// more answering peers than a lookup result holds (16): closer nodes learned later push
+		// already-asked ones out, so well over 16 peers answer in one lookup
+		p.Cfg["np"] = int64(17 + r.intn(24))
+		// half of them as a chain: the asker starts from the farthest peers, every peer names the next
+		// closer ones, only the closest may hold the content - (nearly) every peer answers
+		p.Cfg["chain"] = int64(r.intn(2))
+	}
 	return p
 }
 
@@ -350,20 +358,38 @@ func runLookupContent(seed uint64) {
 		pups = append(pups, cp)
 	}
 	nh := int(p.cfg("holders"))
+	chain := p.cfg("chain") == 1
+	var cid enode.ID
+	copy(cid[:], vp.p.ToContentId(key))
+	if chain {
+		// index 0 = closest to the content id
+		sort.Slice(pups, func(a, b int) bool { return enode.DistCmp(cid, pups[a].id(), pups[b].id()) < 0 })
+		if nh > 1 {
+			nh = 1
+		}
+	}
 	for i, cp := range pups {
 		cp := cp
+		i := i
 		if i < nh {
 			size := 40 + rs.intn(600)
 			if p.cfg("big") == 1 {
 				size = 2000 + rs.intn(8000)
 			}
 			cp.holds = append([]byte(fmt.Sprintf("content-from-P%d-", i)), rs.bytes(size)...)
-		} else {
+		} else if !chain {
 			cp.beh = rs.intn(5)
 		}
 		delay := time.Duration(1+rs.intn(int(p.cfg("maxdelay_ms")))) * time.Millisecond
 		others := func() [][]byte {
 			var out [][]byte
+			if chain {
+				for k := 1; k <= 3 && i-k >= 0; k++ {
+					rec, _ := rlp.EncodeToBytes(pups[i-k].self().Record())
+					out = append(out, rec)
+				}
+				return out
+			}
 			for k := 0; k < 3 && np > 0; k++ {
 				o := pups[rs.intn(np)]
 				rec, _ := rlp.EncodeToBytes(o.self().Record())
@@ -409,6 +435,12 @@ func runLookupContent(seed uint64) {
 	// V knows a few of them at the start
 	known := 1 + rs.intn(np)
 	for i := 0; i < known; i++ {
+		if chain {
+			if i < 16 {
+				vp.p.AddEnr(pups[np-1-i].self()) // the farthest ones
+			}
+			continue
+		}
 		vp.p.AddEnr(pups[rs.intn(np)].self())
 	}
 	w.runFor(30 * time.Millisecond)
@@ -438,7 +470,16 @@ func runLookupContent(seed uint64) {
 	if maxInflight > 3 {
 		w.violate("C10", "too-many-in-flight", "%d content queries were being served at the same time", maxInflight)
 	}
-	w.op("content lookup: %d peers, %d holders, %d known at start -> %d bytes err=%v; %d queried holders supplied content, max %d in flight", np, nh, known, len(got), lerr, supplied, maxInflight)
+	asked := 0
+	for _, cp := range pups {
+		if cp.requests > 0 {
+			asked++
+		}
+	}
+	if asked > 16 {
+		w.probe("content_lookup_more_than_16_asked")
+	}
+	w.op("content lookup: %d peers (chain=%v), %d holders, %d known at start, %d asked -> %d bytes err=%v; %d queried holders supplied content, max %d in flight", np, chain, nh, known, asked, len(got), lerr, supplied, maxInflight)
 	w.abstract("content np=%d nh=%d sup=%d err=%v", np, nh, supplied, lerr != nil)
 	switch {
 	case supplied > 0 && lerr != nil:
